@@ -85,6 +85,7 @@ type c13mLine struct {
 	C    string   `json:"c"`    // channel: log scope touched / channel that left the pending set / owner of the outpoint
 	K    string   `json:"k"`    // contract (commit | htlc | anchor), fail/settle, crash variant
 	Cb   int      `json:"cb"`   // Sweep: control block present
+	Tw   int      `json:"tw"`   // Sweep: the witness type is one of the taproot types
 	Wt   string   `json:"wt"`   // Sweep: witness type (for humans)
 	Rc   string   `json:"rc"`   // Write: channel whose report bucket changed
 	Chs  []c13mCh `json:"chs"`  // durable state of every channel after the line
@@ -458,6 +459,7 @@ func (s *c13mSweeper) SweepInput(inp input.Input, _ sweep.Params) (chan sweep.Re
 		return result, nil
 	}
 	l := c13mLine{A: "Sweep", K: "other", Cb: cb, Wt: fmt.Sprintf("%v", inp.WitnessType())}
+	l.Tw = c13b(strings.HasPrefix(l.Wt, "Taproot"))
 	if known {
 		l.C, l.K = who.ch.id, who.role
 		// the sweeper can only ever publish what it can sign: a script-path spend of a taproot output
